@@ -1,5 +1,6 @@
 """C01 — no datagram can crash the client: the receive path is total."""
 import random
+import sys
 
 from vlib import common, gens, streams
 
@@ -64,6 +65,63 @@ def run(chk, model_ok=True):
             if npanic <= 5:
                 chk.violation("oracle", f"panic on the receive path: {ln[:200]}",
                               {"kind": "oracle", "lines": [ln], "impl": [out], "expected": "a value or an SnmpError, never a panic"})
+    # end to end: the whole receive path of the real clients, incl. the steps a received datagram triggers
+    # (key localisation after discovery) and the Python receive loops: a value or a documented exception, and
+    # the call comes back
+    from vlib import e2e, sessions
+    sys.path.insert(0, "/verif/harness/py")
+    import agent as ag
+    import ber
+    env = e2e.env()
+    n_e2e = 0
+    DOCUMENTED = {"TimeoutError", "BlockingIOError", "SnmpDecodeError", "SnmpAuthError", "SnmpError", "NoSuchInstance", "ValueError",
+                  "SnmpEncodeError", "OSError", "StopAsyncIteration", "StopIteration", "NotImplementedError", "RuntimeError"}
+    # (a) discovery against agents with engine ids of any length (RFC 3411 allows 5..32; a peer can send anything)
+    for ln_ in [0, 1, 4, 5, 12, 32, 33, 40, 41, 64, 100, 255, 300]:
+        for auth in (1, 2):
+            for kt in ("password", "master"):
+                eng = bytes(rng.getrandbits(8) for _ in range(ln_))
+                peer = e2e.Peer("v3", auth=auth, priv=rng.choice([0, 1, 2]), engine_id=eng, auth_kt=kt, priv_kt=kt)
+                sx = sessions.Sess(env, peer, rng, deferred=True)
+                rec = sx.send("refresh")
+                req = sx.conv.req
+                n_e2e += 1
+                if rec["result"][0] != "ok" or not req or "request_id" not in req:
+                    continue
+                r1 = sx.recv("refresh", [peer.state.report(req["request_id"], req["msg_id"], user=b"")])
+                r2 = sx.set_keys(peer.state)
+                r3 = sx.send("get", "1.3.6.1.2.1.1.1.0")["result"]
+                for what, r in (("recv_refresh", r1["result"]), ("set_keys", r2), ("send_get", r3)):
+                    if r[0] == "exc" and (not r[2] or r[1] not in DOCUMENTED):
+                        chk.violation("oracle", f"discovery with a {ln_}-octet engine id, {['', 'MD5', 'SHA-1'][auth]} {kt} key: {what} raised {r[1]} "
+                                      "(panic / undocumented) instead of a value or a documented exception",
+                                      {"kind": "oracle", "lines": [sx.line()[:20000]], "engine_id_len": ln_})
+    # (b) the async client's own receive loop: datagrams that do not answer the request, then nothing
+    for peer in (e2e.Peer("v2c"), e2e.Peer("v3", auth=1, priv=0, auth_kt="localized")):
+        for k in (1, 2):
+            def plan(dg, peer=peer, k=k):
+                req = peer.decode(dg)
+                if req["pdu_type"] == 0 and not req["varbinds"]:
+                    return [peer.state.report(req["request_id"], req["msg_id"], auth=bool(peer.state.auth_alg))]
+                return [peer.response(req, [ber.varbind((1, 3, 6), ber.INT(i))], request_id=(req["request_id"] + 1 + i) % 2 ** 31)
+                        for i in range(k)]
+
+            async def main(port, peer=peer):
+                from gufo.snmp.async_client import SnmpSession
+                from props import c18
+                async with SnmpSession("127.0.0.1", port=port, timeout=0.2, **c18.session_kwargs(peer)) as sx:
+                    return await sx.get("1.3.6")
+            r, _ = e2e.run_async(main, plan, watchdog=6.0)
+            n_e2e += 1
+            name = r[1][2:] if r[0] == "exc" and r[1].startswith("PySnmp") else (r[1] if r[0] == "exc" else "value")
+            if r[0] == "exc" and name == "Hang":
+                chk.violation("oracle", f"async get() on {peer.label}: {k} non-matching datagram(s) and no reply: the call never returned "
+                              "(event loop frozen) instead of raising TimeoutError",
+                              {"kind": "oracle", "lines": [f"# async {peer.label} strays={k}"]})
+                break
+            if name != "TimeoutError":
+                chk.violation("oracle", f"async get() on {peer.label}: {k} non-matching datagram(s) and no reply ended as {name}",
+                              {"kind": "oracle", "lines": [f"# async {peer.label} strays={k}"]})
     st.diff("C01 decoders")
     st.coverage(
         "streams: corpus of former crashers; structured-valid (40%) / mutated (40%) / grammar-malformed (20%) "
@@ -74,6 +132,8 @@ def run(chk, model_ok=True):
         "distinct = distinct request lines.",
         lambda ln, out: not out.startswith("err Incomplete") and out != "bad-op")
     chk.coverage["exhaustive_small_len"] = L
+    chk.coverage["e2e_receive_path_cases"] = n_e2e
+    chk.coverage["evaluations"] = chk.coverage.get("evaluations", 0) + n_e2e
     chk.assumptions += [
         "safe Rust: an out-of-range index or slice panics instead of reading out of bounds (memory safety of the decoders)",
         "the harness is built with the dev profile (overflow checks on), as the pinned test command is",
